@@ -116,6 +116,22 @@ func c14(r *ev.Run) {
 	r.Set("suite_configurations", 32*7*4*14*5*4)
 	// input clause
 	shapes := usableShapes([]int{60})
+	// the same shapes carrying left-over metadata for fields they do NOT select: those fields stay unconstrained
+	for _, sh := range usableShapes([]int{60}) {
+		x := sh
+		if !x.Q {
+			x.QF = 1 + (len(shapes) % 6)
+		}
+		if !x.P {
+			x.PH = 1 + (len(shapes) % 3)
+		}
+		if !x.T {
+			x.TS = 30
+		}
+		if x != sh {
+			shapes = append(shapes, x)
+		}
+	}
 	r.Set("usable_field_shapes", len(shapes))
 	var pairLens []int
 	if r.Thorough() {
